@@ -74,8 +74,8 @@ Section Final.
     (forall r, ec g a r = content g (rch a r) (rw a r)) /\
     Permutation (disposed_of tr ++ flat_map (ec g a) (tl a)) (flat_map (fun e => DhpProofsC03.retired_ev (snd e)) tr).
   Proof.
-    destruct (DhpConsThm.reach_JB fuel c ths conf H4 Ho Ht Hn Hra Hr Hnd) as (a & [O1 K1 R1 [W1 W2 W3 W4 W5 W6 W7]]).
-    destruct (W7 Hoob) as [C1 C2 C3 C4 C5 C6]. destruct O1 as [(T1 & T2) _ _ _ O5]. destruct R1 as [R1 R2 R3 R4 (R5 & R5') R6].
+    destruct (DhpConsThm.reach_JB fuel c ths conf H4 Ho Ht Hn Hra Hr Hnd) as (a & [O1 K1 R1 [W1 W2 W3 W4 W5 W6 W7 W8 W9]]).
+    destruct (W7 Hoob) as [C1 C2 C3 C4 C5 C6 C7]. destruct O1 as [(T1 & T2) _ _ _ O5]. destruct R1 as [R1 R2 R3 R4 (R5 & R5') R6].
     exists a.
     assert (Fown : forall t, vb_own (bvs a t) = []).
     { intros t. destruct (vb_own (bvs a t)) as [|r l] eqn:E; auto. exfalso. destruct (O5 t r) as (_ & X); [rewrite E; now left|].
@@ -136,3 +136,22 @@ Section Final.
     rewrite (Sp Hno1). erewrite flat_map_ext; [exact HP|]. intros r. cbn. now rewrite Fec.
   Qed.
 End Final.
+
+(** the same without the hypothesis on the out-of-bounds flag (discharged by [DhpConsThm.dhp_oob_false]) *)
+Theorem dhp_destroy_disposes_all_detached_nooob : forall fuel (c : cfg) ths conf,
+  4 <= c_RB c -> c_old c = false -> c_oldtail c = false ->
+  (Z.of_nat (List.length ths) + 3 < 2147483648)%Z ->
+  Forall DhpConsThm.retire_attached ths ->
+  Conc.reach (init_cfg fuel c ths) conf ->
+  NoDup (flat_map (fun e => DhpProofsC03.retired_ev (snd e)) (Conc.trace conf)) ->
+  (forall r, r < List.length (recs (Conc.shared conf)) -> r_tid (grec (Conc.shared conf) r) = 0) ->
+  forall fuel2 d, d = Conc.run fuel2 0 [] (Conc.Cfg (Conc.shared conf)
+                        [compile fuel2 (DAct a_begin (fun _ => to_unit (destruct c (S (List.length ths)))))] []) ->
+  snd d = true -> ~ In (EvCli "outoffuel" []) (map snd (Conc.trace (fst d))) ->
+  Permutation (disposed_of (Conc.trace conf) ++ disposed_of (Conc.trace (fst d)))
+              (flat_map (fun e => DhpProofsC03.retired_ev (snd e)) (Conc.trace conf)).
+Proof.
+  intros fuel c ths conf H4 Ho Ht Hn Hra Hr Hnd H0.
+  exact (dhp_destroy_disposes_all_detached fuel c ths conf H4 Ho Ht Hn Hra Hr Hnd (DhpConsThm.dhp_oob_false fuel c ths conf H4 Ho Ht Hn Hra Hr Hnd) H0).
+Qed.
+
